@@ -136,8 +136,47 @@ impl<K: SimKernel<D>, const D: usize> Monitor<K, D> for C11<K, D> {
                 } else if art.embedded {
                     // unchanged: either stale (conservative) or exactly right
                     let pos = geom::hull_position(post, &q);
-                    if !pos.decidable || pos.on_some_hyperplane {
+                    if !pos.decidable {
                         ctx.stats.abstained += 1;
+                        continue;
+                    }
+                    if pos.on_some_hyperplane {
+                        // q lies exactly in the hyperplane of some hull facet: for those facets the
+                        // library applies its documented distance heuristic (not judged); everything
+                        // else about the query is still exact
+                        ctx.stats.bump("c11.queries_in_a_facet_hyperplane");
+                        if pos.visible.is_empty() {
+                            // on the hull boundary itself: neither strictly inside nor outside
+                            ctx.stats.abstained += 1;
+                            continue;
+                        }
+                        if let Ok(o) = r_out
+                            && !o
+                        {
+                            findings.push(("wrong-outside-answer".into(), label.clone(), format!("is_point_outside({q:?}) = false for a point strictly beyond {} hull facet(s) (and exactly in the hyperplane of {} other(s))", pos.visible.len(), pos.coplanar.len())));
+                        }
+                        if let Ok(vis) = &r_vis {
+                            let got: BTreeSet<(u64, usize)> = vis.iter().filter_map(|i| art.hull.get_facet(*i)).map(|f| (f.cell_key().data().as_ffi(), f.facet_index() as usize)).collect();
+                            let must: BTreeSet<(u64, usize)> = pos.visible.iter().copied().collect();
+                            let may: BTreeSet<(u64, usize)> = pos.coplanar.iter().copied().collect();
+                            if !must.is_subset(&got) || got.iter().any(|g| !must.contains(g) && !may.contains(g)) {
+                                findings.push(("wrong-visible-facets".into(), label.clone(), format!("find_visible_facets({q:?}) = {got:x?}; exactly visible: {must:x?}; in-plane (heuristic, not judged): {may:x?}")));
+                            }
+                        }
+                        for fi in 0..art.hull.number_of_facets().min(32) {
+                            let Some(f) = art.hull.get_facet(fi) else { continue };
+                            let key = (f.cell_key().data().as_ffi(), f.facet_index() as usize);
+                            if pos.coplanar.contains(&key) {
+                                continue;
+                            }
+                            ctx.stats.executions += 1;
+                            if let Ok(v) = art.hull.is_facet_visible_from_point(f, &point, tri)
+                                && v != pos.visible.contains(&key)
+                            {
+                                findings.push(("wrong-facet-visibility".into(), label.clone(), format!("is_facet_visible_from_point(facet {fi}, {q:?}) = {v}, exact: {} (q lies in the hyperplane of another facet)", pos.visible.contains(&key))));
+                                break;
+                            }
+                        }
                         continue;
                     }
                     if let Ok(o) = r_out
